@@ -222,7 +222,7 @@ MUTANTS = {
         "props": ["C04", "C05"], "what": "interpolation weights p0/p1 swapped",
         "edits": [(TC, "    p0 = x_distance_from_next_data_point / x_distance_between_data_points\n    p1 = 1 - p0", "    p1 = x_distance_from_next_data_point / x_distance_between_data_points\n    p0 = 1 - p1")]},
     "p_ignore_against_x": {
-        "props": ["C04", "C05"], "what": "p_ignore numerator uses y - x_best instead of y - y_best",
+        "props": ["C05"], "what": "p_ignore numerator uses y - x_best instead of y - y_best (all groups collapse to the constant x_best: parity still holds, optimality does not)",
         "edits": [(TO, "                difference_from_best_predictor_for_sensitive_feature = roc_result.y - self._y_best", "                difference_from_best_predictor_for_sensitive_feature = roc_result.y - self._x_best")]},
     "group_weight_uniform": {
         "props": ["C05"], "what": "groups weighted 1/#groups instead of n_g/n",
@@ -237,7 +237,7 @@ MUTANTS = {
         "props": ["C04"], "what": "each group takes the grid index of its own best point",
         "edits": [(TO, "            best_interpolation = self._tradeoff_curve[sensitive_feature_value].iloc[i_best]", "            best_interpolation = self._tradeoff_curve[sensitive_feature_value].iloc[self._tradeoff_curve[sensitive_feature_value]['y'].idxmax()]")]},
     "tie_grouping_isclose": {
-        "props": ["C04"], "what": "scores within np.isclose are treated as tied when counting but not when placing the threshold",
+        "props": ["C04", "C05"], "what": "scores within np.isclose are treated as tied when counting but not when placing the threshold",
         "edits": [(TC, "            while scores[i] == threshold:", "            while np.isclose(scores[i], threshold):")]},
     "rev_fix_eo_dataframe_y": {
         "props": ["C12"], "what": "revert fix b18a4c8: labels.sum().loc[0]",
